@@ -66,6 +66,28 @@ def parse_errors(stderr):
     return out
 
 
+def _enclosing_proof_block(lines, line_no, lo, hi):
+    """(first, last) line numbers (1-based) of the innermost `proof { .. }` block of the region [lo, hi] that contains line_no, or None"""
+    best = None
+    for k in range(lo - 1, min(hi, len(lines))):
+        m = re.match(r'\s*proof\s*\{', lines[k])
+        if not m:
+            continue
+        depth = 0
+        end = None
+        for q in range(k, min(hi, len(lines))):
+            depth += lines[q].count('{') - lines[q].count('}')
+            if depth <= 0:
+                end = q
+                break
+        if end is None:
+            continue
+        if k + 1 <= line_no <= end + 1:
+            if best is None or (end - k) < (best[1] - best[0]):
+                best = (k + 1, end + 1)
+    return best
+
+
 def run_unit(unit, tier='quick', _extra_fns=None):
     ensure_dirs()
     mod = importlib.import_module(unit)
@@ -150,6 +172,45 @@ def run_unit(unit, tier='quick', _extra_fns=None):
         smt_s = j['times-ms']['smt']['total'] / 1000.0
     except Exception:
         smt_s = wall
+    # Proof hints (`proof { .. }` blocks the unit spliced into a function) are scaffolding, not obligations. When one of them fails
+    # — typically because the edited tree moved the statement it was attached to — the failure says nothing about the property, and
+    # Verus goes on ASSUMING the failed assertion, which can hide a real failure further down. So: blank the failing hint block and
+    # verify again (a false statement cannot become provable by removing hints; an unnecessary or misplaced hint stops mattering).
+    dropped_hints = 0
+    for _round in range(6):
+        lines_now = text.split('\n')
+        blocks = []
+        for e in errs:
+            if e['code']:
+                continue
+            reg = asm.region_of(e['line'])
+            if reg is None or reg[3] != 'fn':
+                continue
+            span = _enclosing_proof_block(lines_now, e['line'], reg[0], reg[1])
+            if span and span not in blocks:
+                blocks.append(span)
+        if not blocks:
+            break
+        for a_, b_ in blocks:
+            for k in range(a_ - 1, b_):
+                lines_now[k] = ''
+        dropped_hints += len(blocks)
+        text = '\n'.join(lines_now)
+        path2 = os.path.join(BUILD, unit + '_retry.rs')
+        open(path2, 'w').write(text)
+        try:
+            p = subprocess.run(['verus', path2] + cmd[2:], capture_output=True, text=True, timeout=VERUS_TIMEOUT, cwd=BUILD)
+        except subprocess.TimeoutExpired:
+            raise Undecided('verus timeout on unit %s' % unit)
+        open(os.path.join(BUILD, unit + '.verus.log'), 'a').write('\n==== retry without %d failing proof hint(s)\n' % dropped_hints + p.stdout + '\n==== stderr\n' + p.stderr)
+        try:
+            j = json.loads(p.stdout)
+        except Exception:
+            j = {}
+        vr = j.get('verification-results', {})
+        errs = parse_errors(p.stderr)
+        if 'verified' not in vr:
+            raise Undecided('unit %s does not compile under Verus after dropping a failing proof hint' % unit)
     by_label = {}
     undecided = []
     for e in errs:
@@ -226,6 +287,22 @@ def run_unit(unit, tier='quick', _extra_fns=None):
             head_ = head_[:m2.start()] if m2 else head_[:200]
             if not re.search(r'\b(invariant|invariant_except_break|decreases)\b', head_):
                 bare += 1
+            elif not re.search(r'\b(invariant|invariant_except_break)\b', head_):
+                # only a `decreases` (supplied by a rewrite): fine for a search loop that leaves through `return`, but a loop that
+                # carries a result out in a variable declared before it needs an invariant about that variable
+                ob2 = body_.find('{', lm.start() + len(head_))
+                if ob2 >= 0:
+                    depth, q = 0, ob2
+                    while q < len(body_):
+                        depth += (body_[q] == '{') - (body_[q] == '}')
+                        if depth == 0:
+                            break
+                        q += 1
+                    lb = body_[ob2:q]
+                    declared = set(re.findall(r'\blet (?:mut )?(\w+)', lb))
+                    assigned = set(re.findall(r'^[ \t]*(\w+)\s*(?:\+|-|\*)?=(?!=)', lb, re.M))
+                    if any(not v.startswith('idx_') and v not in declared for v in assigned):
+                        bare += 1
             elif lm.group(1) == 'loop' and not re.search(r'\b(ensures|invariant_except_break)\b', head_):
                 # a `loop { .. break .. }` where the unit expected a `while`: the invariant it spliced does not say what holds at
                 # the exits, so nothing after the loop can be concluded
